@@ -389,6 +389,22 @@ def judge(ctx, traces, verdicts):
                     replay_payload=dict(kind='nodecache', property='C12', clause=f,
                                         history=t['history'], log_from=t['log_from'],
                                         failed_line=v['i'])))
+    # where in the code's iteration the vanished instances really were (read off the traces)
+    vanish_pos = collections.Counter()
+    for t in traces:
+        if t['src'] != 'vanish':
+            continue
+        reads = []
+        for line in t['lines']:
+            if line['ev'] == 'SyncBegin':
+                reads = []
+            elif line['ev'] == 'ZkGet' and line['args'][0] == 'placement':
+                reads.append(line['args'][1] in line['post']['zk']['pl'])
+            elif line['ev'] == 'SyncEnd' and reads and not all(reads):
+                for k, ok in enumerate(reads):
+                    if not ok:
+                        vanish_pos['first' if k == 0 else 'last' if k == len(reads) - 1 else 'middle'] += 1
+                reads = []
     violations.sort(key=lambda x: len(json.dumps(x['replay_payload']['history'])))
     samples = []
     for t in traces:
@@ -416,6 +432,7 @@ def judge(ctx, traces, verdicts):
         extra=dict(trace_sources=dict(collections.Counter(t['src'] for t in traces)),
                    exercised=dict(flags), spontaneous_exceptions=spontaneous,
                    crash_cuts=flags.get('crash', 0), ioerr_cuts=flags.get('ioerr', 0),
+                   vanished_between_listing_and_read=dict(vanish_pos),
                    extensions=dict(readiness=extensions), notes=ctx.notes))
 
 
@@ -452,6 +469,10 @@ def run(ctx):
             count[s] += 1
             hists.append((s, h, 'all' if count[s] <= 200 else '3'))
     hists += [(s, h, 'none') for s, h in live]
+    # syncs with 3-5 instances to fetch, one or two of them vanishing between the listing and the read,
+    # the vanished one aimed at the first / middle / last place of the code's iteration
+    rng = random.Random(ctx.seed * 15485863 + 7)
+    hists += [('vanish', drv.gen_vanish(rng, position=k % 3), 'none') for k in range(24 if ctx.quick else 450)]
     traces = _record(ctx, hists)
     ctx.log('recorded %d traces (%d with a cut), %d lines' % (
         len(traces), sum(1 for t in traces if t['src'].endswith('+cut')),
@@ -496,6 +517,15 @@ MUTANTS = [
     ('no-placement-merge', 'eventmgr.py',
      [("                manifest.update(placement_data)\n", "                pass\n")], 'C12.content'),
     ('tmp-without-dot', 'eventmgr.py', [("prefix='.%s-' % app,", "prefix='%s-' % app,")], 'C12.atomic'),
+    ('stop-at-vanished', 'eventmgr.py',
+     [("""        for app in missing:
+            self._cache(zkclient, app)
+""", """        for app in missing:
+            if not os.path.exists(os.path.join(self.tm_env.cache_dir, app)) and \\
+                    not zkclient.exists(z.path.placement(self._hostname, app)):
+                break
+            self._cache(zkclient, app)
+""")], 'C12.present'),
     ('ctime-truncated', 'eventmgr.py',
      [("placement_time = placement_metadata.ctime / 1000.0", "placement_time = placement_metadata.ctime // 1000")],
      'C12.refresh'),
